@@ -179,6 +179,28 @@ def check_exact_collection(bdd, external):
 
 
 # ------------------------------------------------------------------ M5
+UNREADABLE_TABLES = [0]
+
+
+def _readable(tab):
+    """The computed table maps `(g, u, v)` to `w`, all signed ints. How
+    the library stores its cache is its own business: another format is
+    not judged (the reach counters of the checks then stay at zero, which
+    makes the run inconclusive, not a violation)."""
+    for k, w in tab.items():
+        ok = (isinstance(k, tuple) and len(k) == 3 and
+              all(isinstance(x, int) for x in k) and isinstance(w, int))
+        if not ok:
+            UNREADABLE_TABLES[0] += 1
+        return ok
+    return True
+
+
+def entries(tab):
+    """Number of entries of a computed table that the monitors read."""
+    return len(tab) if _readable(tab) else 0
+
+
 def check_ite_table(bdd, den=None, semantic=True):
     bdd = raw(bdd)
     tab = bdd._ite_table
@@ -187,6 +209,8 @@ def check_ite_table(bdd, den=None, semantic=True):
     succ = bdd._succ
     den = den or Denoter(bdd)
     sp = den.sp
+    if not _readable(tab):
+        return 0
     for (g, u, v), w in tab.items():
         for x in (g, u, v, w):
             if abs(x) not in succ:
@@ -218,6 +242,8 @@ class IteTableWatch:
             self.table = tab
         succ = bdd._succ
         cur = dict()
+        if not _readable(tab):
+            return 0
         for k, w in tab.items():
             g, u, v = k
             for x in (g, u, v, w):
@@ -264,8 +290,8 @@ class SwapWatch:
         orig = _b.BDD.swap
         self._orig = orig
 
-        def swap(self, x, y, all_levels=None):
-            r = orig(self, x, y, all_levels)
+        def swap(self, x, y, all_levels=None, *args, **kw):
+            r = orig(self, x, y, all_levels, *args, **kw)
             watch.calls += 1
             if all_levels is not None:
                 watch.with_index += 1
@@ -306,6 +332,8 @@ class HandleRegistry:
         self.live = collections.Counter()   # (id(manager), node) -> n
         self.created = 0
         self.deleted = 0
+        self.ids = set()
+        self.finalised_unconstructed = 0
         self._orig = None
 
     def install(self):
@@ -317,17 +345,26 @@ class HandleRegistry:
 
         def __init__(self, node, bdd, *args, **kw):
             oinit(self, node, bdd, *args, **kw)
+            # only objects whose constructor completed hold a reference
+            reg.ids.add(id(self))
             reg.live[(id(self.manager), abs(node))] += 1
             reg.created += 1
 
         def __del__(self):
             node = getattr(self, 'node', None)
-            if node is not None:
-                key = (id(self.manager), abs(node))
-                reg.live[key] -= 1
-                if not reg.live[key]:
-                    del reg.live[key]
-                reg.deleted += 1
+            if id(self) in reg.ids:
+                reg.ids.discard(id(self))
+                if node is not None:
+                    key = (id(self.manager), abs(node))
+                    reg.live[key] -= 1
+                    if not reg.live[key]:
+                        del reg.live[key]
+                    reg.deleted += 1
+            else:
+                # the finaliser of an object whose constructor raised:
+                # whatever it releases was never taken (the ledger
+                # comparison shows it)
+                reg.finalised_unconstructed += 1
             odel(self)
         F.__init__ = __init__
         F.__del__ = __del__
